@@ -3,4 +3,6 @@
 #[cfg(stageleft_runtime)]
 hydro_lang::setup!();
 
+pub mod net;
 pub mod tickops;
+pub mod top;
